@@ -7,18 +7,24 @@ Tie A (every tier): generated surface programs and one-violation mutants go thro
   * the CORRESPONDENCE obligation: real outcome class == model outcome (kind by kind, panic site by panic site).
 Tie B (thorough tier): a sample is compiled by real rustc (a throw-away crate under harness/c15tb, one binary per program):
 well-formed programs must build and run, ill-formed ones must fail with a diagnostic pointing into the program text.
-Genuine defects of the real code are listed in KNOWN_FINDINGS.json (FM1..FM11); their class predicates are `known_class` below."""
+Genuine defects of the real code are listed in KNOWN_FINDINGS.json (FM1..FM12); the class predicates of the ones that are still open
+(FM2, FM8, FM10) are `known_class` below.  FM3 (9212d0a), FM4 (361e42e), FM5 (5862f99), FM6 (dfbe0be), FM11 (3a6dc9a) are repaired: their
+mutants (`malformed-condition`, `use+empty-disjunction`, `agg-bound-arg-missing`, `signature-mismatch`, the clause-condition rebinds inside
+macros) are ordinary ill-formed programs now — rejected with a proper error, kind by kind equal to the model."""
 import collections, json, os, re, shutil, subprocess, time
 from . import core, tiec, c15gen as G, c15tie as T
 
 THEOREMS = ["illFormed_undeclared_rejected", "illFormed_arity_rejected", "illFormed_rebind_rejected", "illFormed_stratification_rejected",
             "illFormed_include_rejected", "illFormed_dsLattice_rejected", "illFormed_twoDs_rejected", "illFormed_unknownAttr_rejected",
             "illFormed_parOnlyAttr_rejected", "self_referential_macro_rejected", "direct_recursive_macro_rejected", "mutual_recursive_macro_rejected",
-            "expandItem_succeeds_within_budget", "wellFormedCore_accepted", "accepted_is_wellFormed", "desugar_error_rejected", "self_referential_head_macro_rejected", "panic_only_in_known_classes", "leftover_panics_unreachable", "dependency_cycle_is_one_class", "aggBound_panic_only_in_class", "sig_panic_only_in_class", "stratError_is_illFormedStrat",
-            "hidden_rebind_accepted", "aggBound_shadow_accepted", "emptyDisj_erases_rule", "emptyMacro_accepted", "latticeTrailingComma_accepted", "emptyLattice_rejected"]
+            "expandItem_succeeds_within_budget", "wellFormedCore_accepted", "accepted_is_wellFormed", "desugar_error_rejected", "self_referential_head_macro_rejected", "check_never_panics", "leftover_panics_unreachable", "dependency_cycle_is_one_class", "stratError_is_illFormedStrat",
+            "illFormed_aggBound_rejected", "illFormed_signature_rejected", "illFormed_emptyDisj_rejected", "illFormed_macroEmptyDisj_rejected",
+            "hidden_rebind_accepted", "aggBound_shadow_accepted", "emptyDisj_rejected", "emptyDisj_deep_rejected", "emptyDisj_in_macro_rejected", "aggBoundMissing_rejected",
+            "aggBoundMissing_first_rejected", "sigMismatch_rejected",
+            "emptyMacro_accepted", "latticeTrailingComma_accepted", "emptyLattice_rejected"]
 TRUSTED = ["Lean 4.33.0 kernel", "axioms: propext, Classical.choice, Quot.sound only (audited per theorem)",
-           "statement: Props/C15.lean over the model Model/Check.lean (pipeline order of ascent_syntax.rs / ascent_hir.rs / ascent_mir.rs / the three "
-           "reachable panics of ascent_codegen.rs); the model is tied to the real pipeline outcome by outcome on every generated program",
+           "statement: Props/C15.lean over the model Model/Check.lean (pipeline order of ascent_syntax.rs / ascent_hir.rs / ascent_mir.rs; "
+           "no panic of ascent_codegen.rs is reachable); the model is tied to the real pipeline outcome by outcome on every generated program",
            "the text -> summary mapping (tools/vlib/c15gen.py prints both from one tree; `seen`/`hidden` binder variables follow pattern_get_vars)",
            "tie A runs the macro in process where all proc_macro2 spans compare equal: programs whose outcome depends on spans (a binder that crosses the "
            "boundary of a macro with private names) are excluded from tie A and compiled by real rustc in the thorough tier",
@@ -28,15 +34,10 @@ TRUSTED = ["Lean 4.33.0 kernel", "axioms: propext, Classical.choice, Quot.sound 
 KNOWN_LINES = {
     "FM1": "a variable rebound through a parenthesised pattern (`let (x) = ..`, `for (x) in ..`, `?Some((x))`, `agg (x) = ..`) is silently accepted: pattern_get_vars has no arm for Pat::Paren",
     "FM2": "the bound argument of an aggregation may name an already grounded variable (`c(y), agg m = min(y) in a(y)`): accepted, the outer `y` is silently shadowed inside the aggregation",
-    "FM3": "a syntactically incomplete condition attached to a clause (`a(x) if x > ;`) is silently dropped: BodyClauseNode::parse ends its loop on `Err` without reporting it",
-    "FM4": "an empty disjunction `()` in a body erases the whole rule, together with every violation in it (undeclared head relation accepted)",
-    "FM5": "the macro panics (`Option::unwrap()` on `None`, ascent_codegen.rs) when the bound argument of an aggregation is not an argument of the aggregated relation",
-    "FM6": "the macro panics (`assert_eq!` in compile_mir) when the `impl` signature names another struct or other generics than the `struct` signature",
     "FM7": "the macro panics (`Punctuated::push_punct` in flatten_punctuated) when a macro with an empty body is invoked before a comma inside another macro, a disjunct or a rule head",
     "FM8": "a self-referential macro that invokes itself twice in a rule head or inside a disjunction is expanded eagerly to depth 100 (2^100 / 2^50 expansions): compilation does not terminate instead of reporting `recursively defined Ascent macro`",
     "FM9": "a `lattice` declaration with a trailing comma is rejected with `empty lattice is not allowed` (`empty_or_trailing()` where `is_empty()` was meant); `relation a(i32,);` is accepted",
     "FM10": "the recursion budget also counts disjunction nesting and non-recursive macro chains: 100 nested parentheses or a chain of 100 macros is reported as `recursively defined Ascent macro`",
-    "FM11": "macro hygiene skips the conditions attached to clauses (the renaming visitors do not visit `cond_clauses`): a private name used there keeps its source name, so a well-formed macro body fails in rustc with E0425, and a condition that rebinds a private name (`r(l), q(_) if let Some(l) = ..`) is not recognised as shadowing",
 }
 
 
@@ -45,21 +46,16 @@ def known_class(m, real, model):
     must predict exactly that outcome)"""
     cls, var = m["class"], m["variant"]
     if model is not None and model != real and real != "hang": return None
-    if cls == "rebind" and var.startswith("clausecond") and not m["faithful"] and real == "ok": return "FM11"    # real rustc only
     if cls == "rebind" and var == "agg-bound-arg" and real == "ok": return "FM2"
-    if cls == "malformed-condition" and real == "ok": return "FM3"
-    if var == "use+empty-disjunction" and real == "ok": return "FM4"
-    if cls == "agg-bound-arg-missing" and real == "panic panicAggBound": return "FM5"
-    if cls == "signature-mismatch" and real in ("panic panicSigName", "panic panicSigGenerics"): return "FM6"
     if cls == "recursive-macro" and var.startswith("direct-branching") and real == "hang": return "FM8"
     if var in ("disjunction-nesting-100", "macro-chain-100") and real == "err recMacro": return "FM10"
     return None
 
 
-PANIC_SITE_FINDING = {"panic panicAggBound": "FM5", "panic panicSigName": "FM6", "panic panicSigGenerics": "FM6"}
+PANIC_SITE_FINDING = {}       # no panic site of the macro is a recorded open finding any more (FM5, FM6, FM7 are fixed): every panic is a violation
 # classes whose single violation is answered by a proper error: used for double mutants (pipeline ORDER of the model)
 CLEAN = {"undeclared", "arity", "stratification", "ds-on-lattice", "two-ds", "unknown-attribute", "parallel-only-attribute", "attribute-shape",
-         "attribute-on-rule", "macro-use"}
+         "attribute-on-rule", "macro-use", "agg-bound-arg-missing", "signature-mismatch", "empty-disjunction"}
 
 
 def judge(expect, real):
@@ -106,7 +102,7 @@ def build_streams(rng, tier):
         for j in range(12 if tier == "quick" else 30):
             if not firsts: break
             m1 = r2.choice(firsts)
-            mf = r2.choice([G.mut_undeclared, G.mut_arity, lambda q: G.mut_strat(q, r2), G.mut_ds, G.mut_attrs, G.mut_macro_misc])
+            mf = r2.choice([G.mut_undeclared, G.mut_arity, lambda q: G.mut_strat(q, r2), G.mut_ds, G.mut_attrs, G.mut_macro_misc, G.mut_known_shapes])
             seconds = [m2 for m2 in mf(m1["prog"]) if m2["class"] in CLEAN and m2["class"] != m1["class"] and m2["faithful"] and G.syntax_ok(m2["prog"])]
             if not seconds: continue
             m2 = r2.choice(seconds)
@@ -301,9 +297,7 @@ incremental = false
                 else: d.failing.append({"input": text, "impl": f"rustc: built, run exit {rc}", "model": None, "why": "a well-formed program failed at run time", "case": c})
             else:
                 msg = "; ".join(m for m, _ in diags[nm][:2])
-                if c.get("rustc_only") == "FM11" and "cannot find value" in msg and "FM11" in listed:
-                    r.known("FM11", KNOWN_LINES["FM11"]); stats["well-formed: rejected (known FM11)"] += 1
-                else: d.failing.append({"input": text, "impl": "rustc: " + msg, "model": None, "why": "a well-formed program does not compile", "case": c})
+                d.failing.append({"input": text, "impl": "rustc: " + msg, "model": None, "why": "a well-formed program does not compile", "case": c})
         else:
             if nm in built:
                 fid = known_class(c, "ok", None)
